@@ -573,7 +573,7 @@ func init() {
 		Level: "exploration",
 		Rule: "histories over {Callback slot 1, Callback slot 2 with deadline, notification whose handler awaits a Callback (slot 3), Notify, reply/error-reply to a slot (late, duplicate, unknown ids included), cancel slot, " +
 			"deadline passes, client call with id 1 and its release, Stop, a Callback whose request cannot be transmitted, a burst of three Notify and one Callback issued at once, reply||cancel, reply||Stop}: all histories up to length 3 (4 in thorough) plus seeded longer ones, settle + reference model after every operation; " +
-			"delay-bounded schedules and seeded perturbation on top. distinct_nontrivial = distinct (history, channel flavour, delay set) in which a callback is issued and later addressed by a reply, cancel, deadline or stop",
+			"delay-bounded schedules and seeded perturbation on top; R: k callbacks pending when the connection ends (Stop / peer close), the server restarted on a fresh channel the moment WaitStatus has returned (goroutines parked at the callback sites still parked), a new callback issued and answered there. distinct_nontrivial = distinct (history, channel flavour, delay set) in which a callback is issued and later addressed by a reply, cancel, deadline or stop",
 		Assumptions: []string{
 			"Go 1.26.8 runtime and testing/synctest (virtual time for deadlines, quiescence for absence)",
 			"when the server stops with a callback outstanding any non-nil error is admissible for that Callback",
